@@ -356,10 +356,18 @@ class World:
         vi, li = self.index_maps()
         bi = {id(x): n for n, x in enumerate(self.bulk_members)}
         g = lambda m, o: None if o is None else m.get(id(o), "?")
+        from eglib.h import spoil
+
+        def rd(container):
+            # read a container the library handed out, then scribble on it (it is the caller's)
+            items = list(container)
+            spoil(container)
+            return items
+
         out = {
             "links_of": [[g(li, l) for l in v.links] for v in self.vs],
-            "unis_of": [[g(vi, u) for u in v.universes] for v in self.vs],
+            "unis_of": [[g(vi, u) for u in rd(v.universes)] for v in self.vs],
             "ends": [[g(vi, x) for x in l.vertices] for l in self.ls],
-            "members": {str(u): [g(vi, x) if id(x) in vi else ("b%d" % bi[id(x)] if id(x) in bi else "?") for x in self.vs[u].vertices] for u in self.uidx},
+            "members": {str(u): [g(vi, x) if id(x) in vi else ("b%d" % bi[id(x)] if id(x) in bi else "?") for x in rd(self.vs[u].vertices)] for u in self.uidx},
         }
         return out
